@@ -1,6 +1,7 @@
-(* Model of semantic/version-cran.go. No proofs here.
+(* Model of semantic/version-cran.go (after fix 38e33aec). No proofs here.
    parseCRANVersion ignores the ok flag of big.Int.SetString: a component that is not a decimal
-   number (including the empty string) becomes a nil *big.Int, and components.Cmp dereferences it. *)
+   number (including the empty string) becomes a nil *big.Int; cranVersion.compare would dereference
+   it, but CompareStr now refuses such versions with ErrInvalidVersion before comparing. *)
 From Coq Require Import List ZArith NArith Bool.
 From Scalibr Require Import Semantic.Cmp Semantic.LexPad Semantic.Bytes.
 Import ListNotations.
@@ -13,17 +14,23 @@ Record cran := { cr_comps : list (option Z) }.
 Definition parse_cran (s : bytes) : outcome cran :=
   Ok {| cr_comps := map big_of_string (split_on 46 (map (fun c => if c =? 45 then 46 else c) s)) |}.
 
-(* cranVersion.compare: padded component comparison, then the longer version is greater *)
-Definition cmp_cran (v w : cran) : outcome comparison :=
+(* cranVersion.compare: padded component comparison, then the longer version is greater
+   (panics on a nil component when the other side has a number there) *)
+Definition cmp_cran_raw (v w : cran) : outcome comparison :=
   thenO (comps_cmp (cr_comps v) (cr_comps w))
         (Ok (Nat.compare (length (cr_comps v)) (length (cr_comps w)))).
+
+(* cranVersion.valid *)
+Definition valid_cran (v : cran) : bool := forallb is_some (cr_comps v).
+
+(* cranVersion.CompareStr after parsing its argument: if !v.valid() || !w.valid() { return 0, ErrInvalidVersion } *)
+Definition cmp_cran (v w : cran) : outcome comparison :=
+  if valid_cran v && valid_cran w then cmp_cran_raw v w else Err.
 
 Definition compare_str_cran (a b : bytes) : outcome comparison :=
   obind (parse_cran a) (fun v => obind (parse_cran b) (fun w => cmp_cran v w)).
 
 (* valid = every component is a number (the CRAN grammar: integers separated by '.' or '-') *)
-Definition valid_cran (v : cran) : bool := forallb is_some (cr_comps v).
-
 (* the same on strings *)
 Definition valid_cran_string (s : bytes) : bool :=
   match parse_cran s with Ok v => valid_cran v | _ => false end.
